@@ -629,7 +629,7 @@ class Engine:
         try:
             os.write(fd, txt.encode())
             os.close(fd)
-            p = subprocess.run(["cvc5", "--lang=smt2", "--tlimit=20000", path], capture_output=True, text=True, timeout=40)
+            p = subprocess.run(["cvc5", "--lang=smt2", "--tlimit=5000", path], capture_output=True, text=True, timeout=15)
             out = (p.stdout + p.stderr).strip()
             if "(error" in out or p.returncode not in (0,):
                 st["skipped"] += 1
